@@ -96,3 +96,18 @@ Definition db_polygon_one (pes : list polyelem) (flag_sel flag_period nested : b
   else false.
 Definition db_polygon (pes : list polyelem) (flag_sel flag_period nested : bool) (db : list sample) : list bool :=
   map (db_polygon_one pes flag_sel flag_period nested) db.
+
+(* Editing a polygon set in place: Polygons::addPolyElem, Polygons::setX + setY (Polygons.cpp). The object is a value:
+   after any sequence of edits, queries see the current vertex lists (closed on the fly). *)
+Inductive pop := PAdd (pe : polyelem) | PSetXY (i : nat) (pts : list pt).
+Definition pe_dflt : polyelem := {| pe_pts := []; pe_zmin := None; pe_zmax := None |}.
+Definition apply_pop (pes : list polyelem) (o : pop) : list polyelem :=
+  match o with
+  | PAdd pe => pes ++ [pe]
+  | PSetXY i pts =>
+      if Nat.ltb i (length pes) then
+        firstn i pes ++ [{| pe_pts := pts; pe_zmin := pe_zmin (nth i pes pe_dflt); pe_zmax := pe_zmax (nth i pes pe_dflt) |}]
+        ++ skipn (S i) pes
+      else pes
+  end.
+Definition polygons_after (ops : list pop) : list polyelem := fold_left apply_pop ops [].
